@@ -41,7 +41,7 @@ def c16(chk):
                 "advances the set of specification states that explain the observations with the functions of "
                 "LifecycleOps.tla and judges the observation against the connections the driver holds open; "
                 "(3) token expiry measured against the wall clock with and without disconnect-on-expiry")
-    chk.assumptions = ["quiescence is awaited for at most 3 s", "expiry tolerance -150 ms / +1500 ms",
+    chk.assumptions = ["quiescence is awaited for at most 8 s", "expiry tolerance -150 ms / +1500 ms",
                        "shedding is only triggered while every listener would reconnect"]
     if quick:
         model(chk, "C16-model", {"ConnE1": {"c1", "c2"}, "ConnE2": set(), "ExpConn": set(), "MaxClock": 1,
